@@ -253,7 +253,9 @@ func runC04(c *Ctx) {
 	{
 		var stale []*ssa.Store
 		nStores := 0
-		for _, st := range FieldStoresIn(FindFuncs(wait, 2, func(g *ssa.Function) bool { return PkgOf(g) == PkgOf(wait) && (g == wait || P.WithinOnly(g, func(f *ssa.Function) bool { return f == wait }, 3)) }), "Waiter", "overdueDuration") {
+		for _, st := range FieldStoresIn(FindFuncs(wait, 2, func(g *ssa.Function) bool {
+			return PkgOf(g) == PkgOf(wait) && (g == wait || P.WithinOnly(g, func(f *ssa.Function) bool { return f == wait }, 3))
+		}), "Waiter", "overdueDuration") {
 			if k, ok := ConstInt(st.Val); ok && k == 0 {
 				continue
 			}
